@@ -76,7 +76,7 @@ func cmdRetry(args map[string]string) {
 	}
 	// the real delay calculation and the real wait, sampled
 	for k := uint32(1); k <= 40; k++ {
-		for _, rate := range []time.Duration{time.Nanosecond, time.Microsecond, 3 * time.Millisecond} {
+		for _, rate := range []time.Duration{time.Nanosecond, time.Microsecond, 3 * time.Millisecond, 333333333} {
 			for rep := 0; rep < 20; rep++ {
 				d := bigbuff.VerifCalcExponentialRetry(rate, k)
 				slots := int64(d / rate)
@@ -88,7 +88,13 @@ func cmdRetry(args map[string]string) {
 		ctx, cancel := withCancelCause(context.Background())
 		t := time.Now()
 		go func() { time.Sleep(2 * time.Millisecond); cancel() }()
-		bigbuff.VerifWaitDuration(ctx, time.Hour)
+		bigbuff.VerifWaitDuration(ctx, 6*time.Second) // (cut short after 2 ms; 6 s if the cancellation is ignored)
+		evs = append(evs, rec.Ev{"ev": "wait", "cut_short": time.Since(t) < 5*time.Second})
+		// a context with a far-away deadline is cancelled explicitly: the wait is cut short all the same
+		ctx2, cancel2 := context.WithTimeout(context.Background(), 2*time.Hour)
+		t = time.Now()
+		go func() { time.Sleep(2 * time.Millisecond); cancel2() }()
+		bigbuff.VerifWaitDuration(ctx2, 6*time.Second)
 		evs = append(evs, rec.Ev{"ev": "wait", "cut_short": time.Since(t) < 5*time.Second})
 		t = time.Now()
 		bigbuff.VerifWaitDuration(context.Background(), 3*time.Millisecond)
